@@ -869,7 +869,7 @@ theorem ex_diff0 : diffM o0 exA exB =
     fun xs ys p => diffNode_arr_arr (o := o0) rfl xs ys rfl rfl (.inl rfl) p
   simp [diffKvs_cons, diffKvs_nil, alookup, diffRest_cons, atC, k1, k2, k3, k4, k5, k6, k7,
     sameContainerType, Json.dispatch, accHunk, diffRest_nilA, raw_raw, hashList,
-    lcsValues, lcsRows, lcsRow, lcsRowGo, lcsBack, Json.nodeList, Json.isVoid]
+    lcsValues, lcsRows, lcsRow, lcsRowGo, lcsBack, Json.nodeList, Json.isVoid, subAfter]
 
 /-- the text `jd a.json b.json` prints -/
 def exText : String :=
